@@ -1027,4 +1027,299 @@ theorem loop_rejects_len_eof (cfg : Cfg) (pend : Bytes) (t : QRec) (hl ls : Byte
   conv => lhs; unfold loop
   simp [sQ, sL, finish, hlen, pure, Except.pure]
 
+/-! ### the reader sees complete lines only through `bytes.TrimSpace` -/
+
+open Biogo.Fasta (TrimEq toCRLF)
+
+/-- one iteration of the loop of `Read` on a trimmed line: the next loop state, or the
+    returned pair -/
+def step (cfg : Cfg) (st : LoopSt) (line : Bytes) : Except Panic (LoopSt ⊕ Ret) :=
+  let st := { st with err := none }
+  if st.state == .id1 && maybeID1 line then do
+    let (t, _err) ← readHeader line
+    pure (.inl { st with state := .letters, t := some t, err := _err, label := line })
+  else if st.state == .id2 && maybeID2 line then do
+    if st.label.length == 0 then pure (.inr ⟨none, some .noHeader⟩)
+    else
+      let same ← (if line.length != 1 then sameLabel st.label line else pure true)
+      if !same then pure (.inr ⟨none, some .qualHeader⟩)
+      else pure (.inl { st with state := .quality })
+  else if st.state == .letters && line.length > 0 then do
+    let plus ← (if maybeID2 line then
+                  (if line.length == 1 then pure true else sameLabel st.label line)
+                else pure false)
+    if plus then pure (.inl { st with state := .quality })
+    else pure (.inl { st with state := .id2, seqBuff := line.filter (fun b => !isSpace b) })
+  else if st.state == .quality then
+    if line.length == 0 && st.seqBuff.length != 0 then pure (.inl st)
+    else do
+      let (ret, _) ← finish cfg st line ([], [])
+      pure (.inr ret)
+  else pure (.inl st)
+
+theorem finish_rest (cfg : Cfg) (st : LoopSt) (line : Bytes) (rest : List Bytes × Bytes) :
+    finish cfg st line rest = (finish cfg st line ([], [])).map (fun p => (p.1, rest)) := by
+  unfold finish
+  simp only []
+  split
+  · rfl
+  · cases st.t <;> rfl
+
+theorem loop_step (cfg : Cfg) (pend : Bytes) (st : LoopSt) (raw : Bytes) (rest : List Bytes) :
+    loop cfg pend st (raw :: rest) =
+      (match step cfg st (trimSpace raw) with
+       | .error p => .error p
+       | .ok (.inl st') => loop cfg pend st' rest
+       | .ok (.inr ret) => .ok (ret, rest, pend)) := by
+  conv => lhs; unfold loop
+  unfold step
+  simp only []
+  split
+  · cases readHeader (trimSpace raw) with
+    | error e => simp [bind, Except.bind]
+    | ok v => simp [bind, Except.bind, pure, Except.pure]
+  · split
+    · split
+      · simp [bind, Except.bind, pure, Except.pure]
+      · generalize (if (trimSpace raw).length != 1 then sameLabel st.label (trimSpace raw) else pure true) = c
+        cases c with
+        | error e => simp [bind, Except.bind]
+        | ok b => cases b <;> simp [bind, Except.bind, pure, Except.pure]
+    · split
+      · generalize (if maybeID2 (trimSpace raw) = true then
+            if ((trimSpace raw).length == 1) = true then pure true else sameLabel st.label (trimSpace raw)
+            else (pure false : Except Panic Bool)) = c
+        cases c with
+        | error e => simp [bind, Except.bind]
+        | ok b => cases b <;> simp [bind, Except.bind, pure, Except.pure]
+      · split
+        · split
+          · simp [pure, Except.pure]
+          · rw [finish_rest]
+            cases finish cfg { st with err := none } (trimSpace raw) ([], []) with
+            | error e => simp [bind, Except.bind, Except.map]
+            | ok v => simp [bind, Except.bind, Except.map, pure, Except.pure]
+        · simp [pure, Except.pure]
+
+
+theorem loop_congr (cfg : Cfg) (pend : Bytes) {lines lines' : List Bytes} (h : TrimEq lines lines') :
+    ∀ st : LoopSt,
+      (match loop cfg pend st lines, loop cfg pend st lines' with
+       | .ok (ret, rest, p), .ok (ret', rest', p') => ret = ret' ∧ p = p' ∧ TrimEq rest rest'
+       | .error e, .error e' => e = e'
+       | _, _ => False) := by
+  induction h with
+  | nil =>
+    intro st
+    cases loop cfg pend st [] with
+    | error e => rfl
+    | ok v => exact ⟨rfl, rfl, TrimEq.refl _⟩
+  | cons l l' ls ls' heq htail ih =>
+    intro st
+    rw [loop_step, loop_step, ← heq]
+    cases step cfg st (trimSpace l) with
+    | error e => rfl
+    | ok v =>
+      cases v with
+      | inl st' => exact ih st'
+      | inr ret => exact ⟨rfl, rfl, htail⟩
+
+theorem readAllAux_trimEq (cfg : Cfg) (fuel : Nat) : ∀ (lines lines' : List Bytes) (pend : Bytes),
+    TrimEq lines lines' → readAllAux cfg fuel lines pend = readAllAux cfg fuel lines' pend := by
+  induction fuel with
+  | zero => intro _ _ _ _; rfl
+  | succ f ih =>
+    intro lines lines' pend h
+    have hc := loop_congr cfg pend h {}
+    simp only [readAllAux, read]
+    cases h1 : loop cfg pend {} lines with
+    | error e =>
+      cases h2 : loop cfg pend {} lines' with
+      | error e' => rw [h1, h2] at hc; simp at hc; simp [hc]
+      | ok v' => rw [h1, h2] at hc; simp at hc
+    | ok v =>
+      cases h2 : loop cfg pend {} lines' with
+      | error e' => rw [h1, h2] at hc; simp at hc
+      | ok v' =>
+        rw [h1, h2] at hc
+        obtain ⟨ret, rest, p⟩ := v
+        obtain ⟨ret', rest', p'⟩ := v'
+        simp only [] at hc
+        obtain ⟨rfl, rfl, hr⟩ := hc
+        simp only []
+        split
+        · rfl
+        · rw [ih rest rest' p hr]
+
+/-! ### the input in two parts: terminated lines, and what follows the last LF -/
+
+/-- the LF-terminated lines (CR dropped), and the bytes after the last LF -/
+def splitParts : Bytes → Bytes → List Bytes × Bytes
+  | [], cur => ([], cur.reverse)
+  | b :: bs, cur =>
+    if b == 10 then ((dropCR cur).reverse :: (splitParts bs []).1, (splitParts bs []).2)
+    else splitParts bs (b :: cur)
+
+def optLine (f : Bytes) : List Bytes := if f.isEmpty then [] else [f]
+
+theorem splitLinesAux_parts (bs : Bytes) : ∀ cur : Bytes,
+    splitLinesAux bs cur = (splitParts bs cur).1 ++ optLine (splitParts bs cur).2 := by
+  induction bs with
+  | nil => intro cur; simp [splitLinesAux, splitParts, optLine]
+  | cons b bs ih =>
+    intro cur
+    by_cases hb : (b == 10) = true
+    · simp [splitLinesAux, splitParts, hb, ih []]
+    · simp only [splitLinesAux, splitParts, hb]; exact ih (b :: cur)
+
+theorem splitParts_final (bs : Bytes) : ∀ cur : Bytes,
+    ((splitParts bs cur).2 = [] ↔ (bs = [] ∧ cur = []) ∨ bs.getLast? = some 10) := by
+  induction bs with
+  | nil => intro cur; simp [splitParts]
+  | cons b bs ih =>
+    intro cur
+    by_cases hb : (b == 10) = true
+    · have hb' : b = 10 := by simpa using hb
+      simp only [splitParts, hb, if_true]
+      rw [ih []]
+      cases bs with
+      | nil => simp [hb']
+      | cons c cs => simp [List.getLast?_cons_cons]
+    · have hb' : ¬ b = 10 := by simpa using hb
+      simp only [splitParts, hb, Bool.false_eq_true, if_false]
+      rw [ih (b :: cur)]
+      cases bs with
+      | nil => simp [hb']
+      | cons c cs => simp [List.getLast?_cons_cons]
+
+theorem getLast?_append_optLine (ls : List Bytes) (f : Bytes) (hf : f ≠ []) :
+    (ls ++ optLine f).getLast? = some f ∧ (ls ++ optLine f).dropLast = ls := by
+  have : optLine f = [f] := by simp [optLine, hf]
+  rw [this]; simp
+
+theorem readLineInput_parts (e : Bool) (bs : Bytes) :
+    readLineInput e bs =
+      (if !e && !(splitParts bs []).2.isEmpty && endsPending (splitParts bs []).2
+       then ((splitParts bs []).1, (splitParts bs []).2)
+       else ((splitParts bs []).1 ++ optLine (splitParts bs []).2, [])) := by
+  have hsl : splitLines bs = (splitParts bs []).1 ++ optLine (splitParts bs []).2 := splitLinesAux_parts bs []
+  have hfin := splitParts_final bs []
+  unfold readLineInput
+  simp only [hsl]
+  cases e with
+  | true => simp
+  | false =>
+    simp only [Bool.false_eq_true, if_false, Bool.not_false, Bool.true_and]
+    by_cases hf : (splitParts bs []).2 = []
+    · -- nothing after the last LF: the input is empty or ends in LF
+      have hcase := hfin.mp hf
+      simp only [hf, List.isEmpty_nil, Bool.not_true, Bool.false_and, Bool.false_eq_true, if_false, optLine,
+        if_true, List.append_nil]
+      rcases hcase with ⟨rfl, _⟩ | hl
+      · simp
+      · rw [hl]
+        cases (splitParts bs []).1.getLast? <;> simp
+    · have hne : bs.getLast? ≠ some 10 := fun h => hf (hfin.mpr (.inr h))
+      have hbs : bs ≠ [] := fun h => hf (hfin.mpr (.inl ⟨h, rfl⟩))
+      obtain ⟨g1, g2⟩ := getLast?_append_optLine (splitParts bs []).1 _ hf
+      have hfe : (splitParts bs []).2.isEmpty = false := by simp [hf]
+      cases hb : bs.getLast? with
+      | none => exact absurd (List.getLast?_eq_none_iff.mp hb) hbs
+      | some b =>
+        have hb10 : (b != 10) = true := by
+          simp only [bne_iff_ne, ne_eq]; intro h; subst h; exact hne hb
+        simp only [g1, hb10, Bool.true_and, hfe, Bool.not_false, g2]
+
+theorem trimEq_append {a b : List Bytes} (h : TrimEq a b) (c : List Bytes) : TrimEq (a ++ c) (b ++ c) := by
+  induction h with
+  | nil => exact TrimEq.refl c
+  | cons l l' ls ls' e _ ih => exact .cons l l' _ _ e ih
+
+theorem splitParts_toCRLF (bs : Bytes) : ∀ cur : Bytes,
+    TrimEq (splitParts (toCRLF bs) cur).1 (splitParts bs cur).1 ∧
+    (splitParts (toCRLF bs) cur).2 = (splitParts bs cur).2 := by
+  induction bs with
+  | nil => intro cur; exact ⟨TrimEq.refl _, rfl⟩
+  | cons b bs ih =>
+    intro cur
+    by_cases hb : (b == 10) = true
+    · have hb' : b = 10 := by simpa using hb
+      have e : toCRLF (b :: bs) = 13 :: 10 :: toCRLF bs := by simp [toCRLF, hb']
+      rw [e]
+      simp only [splitParts, hb, if_true, show ((13 : UInt8) == 10) = false from rfl, Bool.false_eq_true, if_false,
+        show ((10 : UInt8) == 10) = true from rfl]
+      refine ⟨.cons _ _ _ _ ?_ (ih []).1, (ih []).2⟩
+      have h1 : (dropCR (13 :: cur)).reverse = cur.reverse := rfl
+      rw [h1]
+      have := trimSpace_stripCR cur.reverse
+      simpa [stripCR] using this.symm
+    · have hb' : ¬ b = 10 := by simpa using hb
+      have e : toCRLF (b :: bs) = b :: toCRLF bs := by simp [toCRLF, hb']
+      rw [e]
+      simp only [splitParts, hb]
+      exact ih (b :: cur)
+
+/-- **CRLF, every input** (FASTQ): replacing each LF by CR LF does not change the call
+    history, for every byte string, template, tables and `io.Reader` behaviour. -/
+theorem readAll_toCRLF (cfg : Cfg) (e : Bool) (bs : Bytes) : readAll cfg e (toCRLF bs) = readAll cfg e bs := by
+  obtain ⟨h1, h2⟩ := splitParts_toCRLF bs []
+  have hlc : lineCount (toCRLF bs) = lineCount bs := by
+    simp only [lineCount, splitLines, splitLinesAux_parts, h2, List.length_append, h1.length_eq]
+  unfold readAll
+  rw [readLineInput_parts e (toCRLF bs), readLineInput_parts e bs, hlc, h2]
+  by_cases hc : (!e && !(splitParts bs []).2.isEmpty && endsPending (splitParts bs []).2) = true
+  · simp only [hc, if_true]
+    exact readAllAux_trimEq cfg _ _ _ _ h1
+  · simp only [hc]
+    exact readAllAux_trimEq cfg _ _ _ _ (trimEq_append h1 _)
+
+theorem splitParts_line (l rest cur : Bytes) (h : ∀ x ∈ l, x ≠ 10) :
+    splitParts (l ++ 10 :: rest) cur
+      = ((dropCR (l.reverse ++ cur)).reverse :: (splitParts rest []).1, (splitParts rest []).2) := by
+  induction l generalizing cur with
+  | nil => simp [splitParts]
+  | cons a l ih =>
+    have ha : a ≠ 10 := h a (by simp)
+    have hl : ∀ x ∈ l, x ≠ 10 := fun x hx => h x (by simp [hx])
+    simp [splitParts, ha, ih _ hl]
+
+theorem splitParts_trailing (a blanks b : Bytes) (hb : ∀ x ∈ blanks, isBlank x = true) : ∀ cur : Bytes,
+    TrimEq (splitParts (a ++ blanks ++ 10 :: b) cur).1 (splitParts (a ++ 10 :: b) cur).1 ∧
+    (splitParts (a ++ blanks ++ 10 :: b) cur).2 = (splitParts (a ++ 10 :: b) cur).2 := by
+  have hnolf : ∀ x ∈ blanks, x ≠ 10 := fun x hx => isBlank_ne_lf (hb x hx)
+  induction a with
+  | nil =>
+    intro cur
+    have key : trimSpace (blanks.reverse ++ cur).reverse = trimSpace cur.reverse := by
+      rw [List.reverse_append]
+      exact Biogo.Fasta.trimSpace_append_blanks _ _ (fun x hx => isBlank_space (hb x (by simpa using hx)))
+    simp only [List.nil_append]
+    have e2 : splitParts (10 :: b) cur = ((dropCR cur).reverse :: (splitParts b []).1, (splitParts b []).2) := by
+      simp [splitParts]
+    rw [splitParts_line blanks b cur hnolf, e2]
+    refine ⟨.cons _ _ _ _ ?_ (TrimEq.refl _), rfl⟩
+    rw [Biogo.Fasta.trim_dropCR_reverse, Biogo.Fasta.trim_dropCR_reverse, key]
+  | cons x a ih =>
+    intro cur
+    by_cases hx : (x == 10) = true
+    · simp only [List.cons_append, splitParts, hx, if_true]
+      exact ⟨.cons _ _ _ _ rfl (ih []).1, (ih []).2⟩
+    · simp only [List.cons_append, splitParts, hx, Bool.false_eq_true, if_false]
+      exact ih (x :: cur)
+
+/-- **trailing white space, every input** (FASTQ): blanks in front of a line terminator do not
+    change the call history. -/
+theorem readAll_trailing_blanks (cfg : Cfg) (e : Bool) (a blanks b : Bytes) (hb : ∀ x ∈ blanks, isBlank x = true) :
+    readAll cfg e (a ++ blanks ++ 10 :: b) = readAll cfg e (a ++ 10 :: b) := by
+  obtain ⟨h1, h2⟩ := splitParts_trailing a blanks b hb []
+  have hlc : lineCount (a ++ blanks ++ 10 :: b) = lineCount (a ++ 10 :: b) := by
+    simp only [lineCount, splitLines, splitLinesAux_parts, h2, List.length_append, h1.length_eq]
+  unfold readAll
+  rw [readLineInput_parts e (a ++ blanks ++ 10 :: b), readLineInput_parts e (a ++ 10 :: b), hlc, h2]
+  by_cases hc : (!e && !(splitParts (a ++ 10 :: b) []).2.isEmpty && endsPending (splitParts (a ++ 10 :: b) []).2) = true
+  · simp only [hc, if_true]
+    exact readAllAux_trimEq cfg _ _ _ _ h1
+  · simp only [hc]
+    exact readAllAux_trimEq cfg _ _ _ _ (trimEq_append h1 _)
+
 end Biogo.Fastq
